@@ -351,7 +351,7 @@ Proof.
       rewrite run_app. cbn [app] in Hs. rewrite Hs. cbn [run step].
       unfold try_join. rewrite forallb_done_map. rewrite done_res_map.
       unfold ws. rewrite map_map. reflexivity.
-    - exists [[]]. cbn. rewrite Er. reflexivity. }
+    - exists [[]]. cbn [run step start]. rewrite Er. reflexivity. }
   induction w as [c loc r|i crit ws IH|nm en ws IH|r] using wt_ind'.
   - cbn [denote]. apply Hrole.
   - destruct (finish_children f (WAgg i crit) (fun s ws n => run_under_agg f s i crit ws n) ws IH [])
